@@ -305,17 +305,7 @@ impl Obs {
     }
 }
 
-pub fn panic_msg(p: Box<dyn std::any::Any + Send>) -> String {
-    let mut s = if let Some(s) = p.downcast_ref::<&str>() {
-        s.to_string()
-    } else if let Some(s) = p.downcast_ref::<String>() {
-        s.clone()
-    } else {
-        "<non-string panic>".to_string()
-    };
-    s.truncate(100);
-    s
-}
+pub use crate::ctx::panic_msg;
 
 /// call next() once, catching panics
 pub fn step_next<R: Read, T: SpecT>(it: &mut TagIterator<R, T>) -> Result<Option<Result<(NItem, usize), NErr>>, String> {
